@@ -1058,3 +1058,105 @@ def accumulators_grow_only(ctx, chk, rule, sites):
                 chk.bad(rule, q, norm(w)[:100], 'a per-pack accumulator is filled by replacing whole entries (dict.update / item assignment) instead of appending rows: when the rows of one pack arrive in '
                         'more than one group (several IN batches, several pages) only the last group survives, so objects that single-key calls find are reported missing by the bulk call',
                         where=f'{fn0.module.relpath}:{w.lineno}')
+
+
+def listing_not_cached(ctx, chk, rule):
+    """`_list_loose` / `_list_packs` enumerate the directories on every call: whatever they yield derives from an os.listdir / os.scandir made in the same call,
+    never from state kept on the handle (a cached listing validated by mtime misses files created within the same timestamp tick)."""
+    prog, K = ctx.prog, ctx.kinds
+    for name in ('_list_loose', '_list_packs'):
+        f = K.container.methods.get(name)
+        chk.require(f is not None, f'Container.{name} not found')
+        reach = [f]
+        for c in walk_local(f.node):
+            if isinstance(c, ast.Call) and isinstance(c.func, ast.Attribute) and norm(c.func.value) == 'self' and c.func.attr in K.container.methods and K.container.methods[c.func.attr] not in reach:
+                reach.append(K.container.methods[c.func.attr])
+        bad = None
+        for g in reach:
+            if g.name.startswith('_get_') or g.name.startswith('_is_valid') or g.is_property:
+                continue
+            for n in walk_local(g.node):
+                # reads or writes of handle state other than configuration / path helpers
+                if isinstance(n, ast.Attribute) and isinstance(n.value, ast.Name) and n.value.id == 'self':
+                    par = getattr(n, '_parent', None)
+                    is_call = isinstance(par, ast.Call) and par.func is n
+                    if is_call:
+                        continue
+                    if n.attr in ('loose_prefix_len', 'hash_type', 'pack_size_target', 'compression_algorithm') or n.attr.isupper() or n.attr.startswith('_REPACK'):
+                        continue
+                    bad = bad or (g, n)
+        if bad is not None:
+            chk.bad(rule, f.qualname, norm(bad[1]), f'the directory listing consults `{norm(bad[1])}`, state kept on the handle: a listing remembered from an earlier call (even if re-validated by the '
+                    'folder\'s mtime) misses files that another handle created since -- within the same timestamp tick the mtime does not change', where=f'{bad[0].module.relpath}:{bad[1].lineno}')
+        else:
+            chk.ok(rule, f.qualname, 'os.listdir on every call', detail='no handle state consulted besides the configuration and path helpers', nontrivial=False)
+
+
+CONNECTION_MAKERS = {'get_session': ('container:Container._get_operation_session', 'container:Container._get_container_session'),
+                     'create_engine': ('database:get_session',), 'sqlite3.connect': ('backup_utils:_sqlite_backup',), 'sessionmaker': ('database:get_session',),
+                     'Session': ()}
+
+
+def single_connection_per_handle(ctx, chk, rule):
+    """Who may open a connection to the index: the two cached-session accessors of the handle (and the online-backup helper).  Any other function that opens
+    its own session / engine / sqlite3 connection reads a different snapshot than the handle's operation session: it does not see the rows that session has
+    staged but not committed, and a write through it collides with the handle's own transaction."""
+    prog = ctx.prog
+    n = 0
+    bad = 0
+    for f in prog.all_functions():
+        if isinstance(f.node, ast.Lambda):
+            continue
+        for c in walk_local(f.node):
+            if not isinstance(c, ast.Call):
+                continue
+            name = norm(c.func)
+            short = name.split('.')[-1]
+            key = name if name in CONNECTION_MAKERS else (short if short in CONNECTION_MAKERS and name in (short, 'database.' + short, 'sqlalchemy.' + short, 'sqlalchemy.orm.' + short, 'orm.' + short) else None)
+            if key is None:
+                continue
+            n += 1
+            if f.qualname not in CONNECTION_MAKERS[key]:
+                bad += 1
+                chk.bad(rule, f.qualname, norm(c)[:80], f'`{f.qualname.split(":")[-1]}` opens its own connection to the index (`{name}`), outside the reviewed sites {sorted(x.split(".")[-1] for x in CONNECTION_MAKERS[key])}: '
+                        'it works on another snapshot than the handle\'s operation session -- rows that session staged without committing (do_commit=False, an import in progress) are invisible to it, so e.g. '
+                        'content already appended in this transaction is not recognised as known and is stored again', where=f'{f.module.relpath}:{c.lineno}')
+    chk.require(n >= 4, f'expected >= 4 connection-opening calls in the package, found {n}')
+    if not bad:
+        chk.ok(rule, '<package>', f'{n} connection-opening call(s)', detail='only the cached-session accessors, get_session itself and the online-backup helper', evals=n)
+
+
+def full_scans_unfiltered(ctx, chk, rule):
+    """Every raw `SELECT ... FROM db_object ...` scan that feeds a sorted merge covers the whole index: no WHERE / LIMIT / OFFSET, ordered by hashkey, executed
+    without bind parameters.  A scan narrowed to "the interesting range" silently classifies keys at the boundary as absent."""
+    import re
+    prog = ctx.prog
+    n = 0
+    bad = 0
+    for f in prog.all_functions():
+        if isinstance(f.node, ast.Lambda):
+            continue
+        for c in walk_local(f.node):
+            if isinstance(c, ast.Call) and norm(c.func).split('.')[-1] == 'text' and c.args:
+                from ..resolve import fold as _fold
+                v = _fold(prog, c.args[0], f, {})
+                if not isinstance(v, str) or not re.match(r'\s*select\b', v, re.I) or 'db_object' not in v.lower():
+                    continue
+                n += 1
+                probs = []
+                low = ' '.join(v.lower().split())
+                for kw in (' where ', ' limit ', ' offset ', ' join ', ' group by ', ' distinct '):
+                    if kw in low + ' ':
+                        probs.append(f'it has a `{kw.strip().upper()}` clause')
+                if not re.search(r'order by hashkey\s*(asc)?\s*$', low):
+                    probs.append('it is not `ORDER BY hashkey` (ascending)')
+                par = getattr(c, '_parent', None)
+                if isinstance(par, ast.Call) and par.args and par.args[0] is c and (len(par.args) > 1 or par.keywords):
+                    probs.append('it is executed with bind parameters')
+                if probs:
+                    bad += 1
+                    chk.bad(rule, f.qualname, v[:90], 'the full scan of the index that feeds the sorted merge is narrowed: ' + '; '.join(probs) + ' -- keys outside the scanned part (e.g. the largest requested key '
+                            'with a half-open range) are classified as not in the index, so existing content is written again or reported missing', where=f'{f.module.relpath}:{c.lineno}')
+    chk.require(n >= 4, f'expected >= 4 raw full scans of db_object, found {n}')
+    if not bad:
+        chk.ok(rule, '<package>', f'{n} raw scan(s) of db_object', detail='whole table, ORDER BY hashkey, no parameters', evals=n)
